@@ -47,7 +47,7 @@ func init() {
 }
 
 func c04Cases(tier string, seed int64) []string {
-	n, f := 8, 8
+	n, f := 24, 16
 	if tier == "thorough" {
 		n, f = 1200, 1600
 	}
